@@ -120,6 +120,44 @@ def _scan_unit(unit, out, repo):
     return p.returncode, p.stderr
 
 
+_IR_RE = re.compile(r'^(@[^ ]+|@"[^"]+")\s*=\s*(.*)$')
+
+
+def _ir_globals(path):
+    """Global variable definitions/declarations of an LLVM IR file: name, writable?, external?, tls?"""
+    out = []
+    names = []
+    with open(path, errors='replace') as fh:
+        for line in fh:
+            if not line.startswith('@'):
+                continue
+            m = _IR_RE.match(line)
+            if not m:
+                continue
+            name, rest = m.group(1), m.group(2)
+            toks = rest.split()
+            kind = None
+            for t in toks[:12]:
+                if t in ('global', 'constant', 'alias', 'ifunc'):
+                    kind = t
+                    break
+            if kind in (None, 'alias', 'ifunc'):
+                continue
+            pre = toks[:toks.index(kind)]
+            out.append({'name': name.strip('@').strip('"'), 'kind': kind, 'external': 'external' in pre or 'extern_weak' in pre,
+                        'tls': any(t.startswith('thread_local') for t in pre), 'linkage': ' '.join(pre)})
+    # demangle the non-constant ones
+    wr = [g for g in out if g['kind'] == 'global']
+    if wr:
+        try:
+            p = subprocess.run(['llvm-cxxfilt-14'] + [g['name'] for g in wr], stdout=subprocess.PIPE, text=True)
+            for g, d in zip(wr, p.stdout.splitlines()):
+                g['demangled'] = d.strip()
+        except OSError:
+            pass
+    return {'writable': wr, 'constants': sum(1 for g in out if g['kind'] == 'constant'), 'total': len(out)}
+
+
 def _merge(per_unit):
     merged = {'records': {}, 'functions': {}, 'globals': {}, 'enums': {}, 'constructs': {}, 'units': []}
     for unit, d in per_unit:
@@ -147,7 +185,7 @@ def _merge(per_unit):
     return merged
 
 
-def scan(repo=None, units=None, verbose=True, with_probe=True):
+def scan(repo=None, units=None, verbose=True, with_probe=True, with_ir=True):
     """Scan the given units (default: the library) and return merged raw facts."""
     repo = repo or REPO
     units = units or library_units(repo)
@@ -172,6 +210,15 @@ def scan(repo=None, units=None, verbose=True, with_probe=True):
             out = os.path.join(tmp, os.path.basename(u) + '.json')
             cmd = [SCANNER, f'--root={repo}', f'--out={out}', u, '--'] + flags(repo)
             procs.append((u, out, subprocess.Popen(cmd, stdout=subprocess.PIPE, stderr=subprocess.PIPE, text=True)))
+        # E7: LLVM IR of the library units (globals only are read)
+        irprocs = []
+        if with_ir:
+            for u in units:
+                if os.path.basename(u) == 'probe.cxx':
+                    continue
+                ll = os.path.join(tmp, os.path.basename(u) + '.ll')
+                cmd = ['clang++', '-O0', '-S', '-emit-llvm', '-o', ll, u] + [x for x in flags(repo) if x != '-resource-dir' and x != RESOURCE_DIR]
+                irprocs.append((u, ll, subprocess.Popen(cmd, stdout=subprocess.PIPE, stderr=subprocess.PIPE, text=True)))
         per_unit = []
         for u, out, p in procs:
             _o, err = p.communicate()
@@ -179,7 +226,14 @@ def scan(repo=None, units=None, verbose=True, with_probe=True):
                 raise AnalysisBroken(f'unit {u} failed to parse with clang 14:\n{err[-3000:]}')
             with open(out) as fh:
                 per_unit.append((u, json.load(fh)))
-        return _merge(per_unit)
+        merged = _merge(per_unit)
+        merged['ir'] = {}
+        for u, ll, p in irprocs:
+            _o, err = p.communicate()
+            if p.returncode != 0 or not os.path.exists(ll):
+                raise AnalysisBroken(f'unit {u} failed to compile to LLVM IR:\n{err[-2000:]}')
+            merged['ir'][os.path.basename(u)] = _ir_globals(ll)
+        return merged
     finally:
         shutil.rmtree(tmp, ignore_errors=True)
 
@@ -233,6 +287,7 @@ class Facts:
         self.enums = raw['enums']
         self.constructs = raw['constructs']
         self.units = raw['units']
+        self.ir = raw.get('ir', {})
         self._by_q = None
         self._subs = None
         self._anc = {}
